@@ -828,6 +828,70 @@ func runC16(c *CaseCtx) *CaseResult {
 					}
 				}
 				res.Obs["encode-error-scenarios"]++
+				// the same with a caller-supplied TYPE INFO that fails to encode: inlined children of a type of their own
+				// inside an array and inside a map; both commit flavours, several times (each failure may take and
+				// give back pooled objects)
+				{
+					const badType = 777777
+					wt := NewWorld(stateSeed^0x7171, addrOf(9, 0))
+					pa, errA := wt.NewRootArray(wt.addr, TI{ID: 1})
+					pm, errM := wt.NewRootMap(wt.addr, TI{ID: 2}, nil)
+					if errA != nil || errM != nil {
+						return fail(viol("harness", "%v %v", errA, errM))
+					}
+					wt.AddRoot(pa)
+					wt.AddRoot(pm)
+					for i := 0; i < 6; i++ {
+						ti := TI{ID: uint64(10 + i)}
+						if i == 3 {
+							ti = TI{ID: badType}
+						}
+						ca, err := wt.NewRootArray(wt.addr, ti)
+						if err == nil {
+							err = wt.OpArrayAppend(ca, &Node{Kind: KU8, U: uint64(i)})
+						}
+						if err == nil {
+							err = wt.OpArrayAppend(pa, ca)
+						}
+						var cm *Node
+						if err == nil {
+							cm, err = wt.NewRootMap(wt.addr, ti, nil)
+						}
+						if err == nil {
+							err = wt.OpMapSet(cm, &Node{Kind: KU8, U: 1}, &Node{Kind: KU8, U: uint64(i)})
+						}
+						if err == nil {
+							err = wt.OpMapSet(pm, &Node{Kind: KU64, U: uint64(i)}, cm)
+						}
+						if err != nil {
+							return fail(err)
+						}
+					}
+					tiFailID.Store(badType)
+					for round := 0; round < 8; round++ {
+						wt.led.inCommit = true
+						var err error
+						if round%2 == 0 {
+							err = wt.ps.FastCommit(workers)
+						} else {
+							err = wt.ps.NondeterministicFastCommit(workers)
+						}
+						wt.led.inCommit = false
+						if err == nil || !errors.Is(err, ErrTypeInfo) {
+							tiFailID.Store(0)
+							return fail(viol("parallel-error", "commit with a type info that fails to encode (%d workers) returned %v", workers, err))
+						}
+					}
+					tiFailID.Store(0)
+					// nothing lost: with the fault gone the commit goes through and the content is intact
+					if err := wt.Commit(false, workers); err != nil {
+						return fail(err)
+					}
+					if err := wt.CheckDeep(); err != nil {
+						return fail(err)
+					}
+					res.Obs["type-info-encode-error-scenarios"]++
+				}
 				// POOL PROBE: whatever the failed commit took from the process-wide pools must have gone back exactly once.
 				// Straight after the failure (before a garbage collection empties the pools) two many-worker commits of a
 				// fresh state run with yields inside Encode, so that encoder goroutines hold buffers while others start;
@@ -1168,6 +1232,6 @@ func init() {
 			"(2) BatchPreload with the same worker/GOMAXPROCS grid and jitter inside the storable decoder, shuffled ids incl. absent ones, compared with sequential decoding: cache ids + re-encoded bytes; (3) error paths: one failing storable (array and map slabs), ledger store/delete failure on the k-th write while encoder workers are still busy (then retry must converge to the sequential reference), ledger READ failure at the first / middle / last id of a parallel preload (must return the error; 'never returns' is a two-stage bounded-progress observation: 60 s, then 120 s on a fresh storage, normal duration is milliseconds), truncated register in preload; " +
 			"(4) G in {2,4,8,16,32} goroutines each with its own ledger/storage/containers run seeded map/array histories with commits concurrently: transcript hash and final registers of each must equal its solo run (before and after the concurrent phase). non-trivial = every case (each compares several configurations); distinct by case seed",
 		Assumptions: []string{"interleavings are sampled, not enumerated; the race detector only sees executed interleavings", "global settings (slab size) are set before any goroutine starts"},
-		Mandatory:   []string{"parallel-commits-compared", "parallel-preloads-compared", "encode-error-scenarios", "ledger-error-scenarios", "decode-error-scenarios", "preload-read-failure-scenarios", "concurrent-client-rounds", "distinct-relaxed-store-orders"},
+		Mandatory:   []string{"parallel-commits-compared", "parallel-preloads-compared", "encode-error-scenarios", "type-info-encode-error-scenarios", "pool-probes-after-encode-errors", "ledger-error-scenarios", "decode-error-scenarios", "preload-read-failure-scenarios", "concurrent-client-rounds", "distinct-relaxed-store-orders"},
 	})
 }
